@@ -9,7 +9,9 @@ first = {'C01-a':'first','C02-a':'first','C03-a':'first','C04-a':'after (engine 
  'C01-b':'after (counting of todo, then decided)','C02-b':'after (firstByte was a trusted summary; now verified)','C03-b':'after','C04-b':'first','C05-b':'first (binding)','C06-b':'first',
  'C08-b':'after','C09-b':'first','C10-b':'first','C12-b':'first','C14-b':'first','C19-b':'first',
  'C07-b':'after','C11-b':'first','C13-b':'first','C15-b':'after (structFieldNames put under contract with reflect.Type observers as pure functions)',
- 'C16-b':'after (makeCaller adapter: private argument vector per call)','C17-b':'first','C18-b':'after','C20-b':'first'}
+ 'C16-b':'after (makeCaller adapter: private argument vector per call)','C17-b':'first','C18-b':'after','C20-b':'first',
+ 'C01-c':'after (by C09 at first; order-preservation of filterBatchLocked then added to C01)','C03-c':'first','C04-c':'first','C05-c':'first','C07-c':'first','C08-c':'first','C09-c':'first','C13-c':'first',
+ 'C14-c':'first (by C01; tasks.responses then added to C14)','C17-c':'first','C18-c':'first','C20-c':'first (by C01/C08; the dispatcher then added to C20)'}
 rows=[]
 for d in sorted(glob.glob('/verif/seeded/*/')):
     sid=os.path.basename(d.rstrip('/'))
